@@ -398,12 +398,26 @@ func (v *Vue) mergeStyles(staticStyle, boundStyle string) string {
 	keys, merged := parseStyleList(staticStyle)
 	boundKeys, boundMap := parseStyleList(boundStyle)
 
+	// CSS property names are case-insensitive (custom properties, --x, are not): a bound
+	// color replaces a static COLOR declaration in place.
+	folded := make(map[string]string, len(keys))
+	for _, k := range keys {
+		if !strings.HasPrefix(k, "--") {
+			folded[strings.ToLower(k)] = k
+		}
+	}
+
 	// Merge: bound values override static ones, new properties are appended
 	for _, k := range boundKeys {
+		target := k
 		if _, exists := merged[k]; !exists {
-			keys = append(keys, k)
+			if sk, ok := folded[strings.ToLower(k)]; ok && !strings.HasPrefix(k, "--") {
+				target = sk
+			} else {
+				keys = append(keys, k)
+			}
 		}
-		merged[k] = boundMap[k]
+		merged[target] = boundMap[k]
 	}
 
 	// Rebuild style string
